@@ -832,14 +832,23 @@ func runRulesMode(enc *json.Encoder, rng *rand.Rand, nsets, size int, tmp string
 	if impTarget.name != "imps/target.go" {
 		return
 	}
+	impIdx := len(targets) - 1
+	// a target nested far deeper than hand-written code (deep.go); the sets of theme "deep" run on it, so do some random ones
+	mk("deep/target.go", deepNest(280))
+	deepTarget := targets[len(targets)-1]
+	if deepTarget.name != "deep/target.go" {
+		return
+	}
 	// leaf-census sets of the kitchen sink and of the imports target (theme "leaves:<target index>")
 	nStatic := len(targetedSets)
 	defer func() { targetedSets = targetedSets[:nStatic] }()
-	for _, ti := range []int{0, len(targets) - 1} {
+	for _, ti := range []int{0, impIdx} {
 		for _, ts := range leafCensusSets(fmt.Sprintf("leaves:%d", ti), targets[ti].t.File) {
 			targetedSets = append(targetedSets, ts)
 		}
 	}
+	// rules for the innermost leaves and for the level nodes of every nest of the deep target
+	targetedSets = append(targetedSets, deepSets...)
 	bundles := map[string][]bundleFile{}
 	for _, pkg := range bundlePkgs {
 		bfs, err := readBundle(pkg)
@@ -886,6 +895,8 @@ func runRulesMode(enc *json.Encoder, rng *rand.Rand, nsets, size int, tmp string
 			tg = targets[ti]
 		} else if theme == "imports" {
 			tg = impTarget
+		} else if theme == "deep" {
+			tg = deepTarget
 		} else if strings.Contains(theme, "pkgs") {
 			tg = pkgTargets[rng.Intn(len(pkgTargets))]
 		} else if theme == "contains" && nbase > 1 {
